@@ -9,7 +9,8 @@ Attr(tys) == UNION {[ty : {t}, named : BOOLEAN, q : QOf(t)] : t \in tys}
 \* default names collide: at most one component without a custom name per type
 NameOK(f) == \A a, b \in DOMAIN f : (a # b /\ ~f[a].named /\ ~f[b].named) => f[a].ty # f[b].ty
 Pops == {<<h>> \o p : h \in Attr(HolderTypes), p \in {x \in [1..NProvs -> Attr(ProvTypes)] : NameOK(x)}}
-Pt(kind, tag, bn, hasQ, q, req) == [kind |-> kind, tag |-> tag, byName |-> bn, hasQ |-> hasQ, q |-> q, req |-> req, fn |-> "Mark"]
-PtF(kind, fn, req) == [kind |-> kind, tag |-> "func", byName |-> 0, hasQ |-> FALSE, q |-> {}, req |-> req, fn |-> fn]
+Pt(kind, tag, bn, hasQ, q, req) == [kind |-> kind, tag |-> tag, byName |-> bn, hasQ |-> hasQ, q |-> q, req |-> req, fn |-> "Mark", ret |-> {}]
+PtF(kind, fn, req) == [kind |-> kind, tag |-> "func", byName |-> 0, hasQ |-> FALSE, q |-> {}, req |-> req, fn |-> fn, ret |-> {}]
+PtK(kind, ret, req) == [kind |-> kind, tag |-> "func", byName |-> 0, hasQ |-> FALSE, q |-> {}, req |-> req, fn |-> "Kind", ret |-> ret]
 Quals == {<<FALSE, {}>>, <<TRUE, {"g1"}>>, <<TRUE, {"g1", "g2"}>>, <<TRUE, {"g9"}>>}
 =============================================================================
